@@ -96,7 +96,8 @@ func (r *reqSpec) httpRequest() *http.Request {
 	target := r.wirePath()
 	var req *http.Request
 	if r.tunnel {
-		req = httptest.NewRequest("POST", target, strings.NewReader(r.rawQuery()))
+		req = httptest.NewRequest("POST", target, hx.ShortReads([]byte(r.rawQuery())))
+		req.ContentLength = int64(len(r.rawQuery()))
 		req.Header.Set("X-HTTP-Method-Override", r.verb)
 		req.Header.Set("Content-Type", "application/x-www-form-urlencoded")
 	} else {
@@ -105,9 +106,13 @@ func (r *reqSpec) httpRequest() *http.Request {
 		}
 		var body io.Reader
 		if r.body != bodyNone {
-			body = strings.NewReader(bodyText[r.body])
+			// delivered in pieces, as a connection would
+			body = hx.ShortReads([]byte(bodyText[r.body]))
 		}
 		req = httptest.NewRequest(r.verb, target, body)
+		if r.body != bodyNone {
+			req.ContentLength = int64(len(bodyText[r.body]))
+		}
 	}
 	if r.hdr != nil {
 		req.Header.Set("X-RestLi-Method", *r.hdr)
